@@ -176,6 +176,9 @@ theorem cmp_eval_spec (a b : Nat) :
   show (a == b) = decide (a = b)
   by_cases h : a = b <;> simp [h]
 
+/-- the driver's executable geometry check implies the hypothesis `WF` of every theorem above -/
+theorem wfb_sound (t : TinyLfu) (h : t.wfb = true) : t.WF := TinyLfu.wfb_sound t h
+
 /-- non-vacuity: a concrete well-formed estimator (2 counters per row, 512-bit doorkeeper with 1 probe) -/
 def sample : TinyLfu :=
   { sketch := { rows := [[0], [0], [0], [0]], mask := 1, scheme := .core },
